@@ -788,7 +788,7 @@ func init() {
 	Register(&Rule{
 		ID:    "R-MEMOKEY",
 		Doc:   "static call graph restricted to the type-compiler functions of each package (functions with a map[reflect.Type]/memo parameter): after removing the functions that look the type up in the memo and return the memoised codec, no cycle remains — otherwise a recursive type that reaches the cycle (type T []T, type M map[string]M) recurses until the stack overflows while its codec is built",
-		Props: []string{"C06", "C03", "C04", "C07"},
+		Props: []string{"C06", "C03", "C04", "C07", "C12"},
 		Min:   map[string]int{"C06": 1, "C03": 1, "C04": 1},
 		Run:   runMemoKey,
 	})
@@ -862,6 +862,73 @@ func runMemoKey(c *core.Ctx) []core.Obligation {
 		if len(nodes) == 0 {
 			b.addP(spec.props, core.Undecided, key, "-", "no type-compiler function with a memo parameter found")
 			continue
+		}
+		// a codec published in the memo before its components are compiled is found, incomplete, by
+		// the recursive references to its type; what those read at construction time — the wire
+		// type, which goes into the tags they precompute — must be set before the recursion
+		if spec.pkg == "proto" {
+			wkey := key + ":published-with-wire-type"
+			bad, sites := "", 0
+			for _, fn := range nodes {
+				mp := memoParam(fn)
+				for _, blk := range fn.Blocks {
+					for _, ins := range blk.Instrs {
+						mu, ok := ins.(*ssa.MapUpdate)
+						if !ok || mu.Map != ssa.Value(mp) {
+							continue
+						}
+						cv := mu.Value
+						if !strings.HasSuffix(cv.Type().String(), "proto.codec") {
+							continue // the memo of the Type descriptions holds no wire-level data
+						}
+						// a later call back into the compiler
+						var rec ssa.Instruction
+						for _, ci := range callsIn(fn) {
+							g := staticCallee(ci.Common())
+							if g == nil || !in[g] {
+								continue
+							}
+							if instrDominates(mu, ci.(ssa.Instruction)) && rec == nil {
+								rec = ci.(ssa.Instruction)
+							}
+						}
+						if rec == nil {
+							continue
+						}
+						sites++
+						set := false
+						for _, b2 := range fn.Blocks {
+							for _, in2 := range b2.Instrs {
+								st, ok := in2.(*ssa.Store)
+								if !ok {
+									continue
+								}
+								fa, ok := st.Addr.(*ssa.FieldAddr)
+								if !ok || fieldNameOf(fa) != "wire" || fa.X != cv {
+									continue
+								}
+								if instrDominates(st, rec) {
+									set = true
+								}
+							}
+						}
+						if !set {
+							if bad != "" {
+								bad += ", "
+							}
+							bad += c.InstrPos(mu) + " (" + shortName(fn) + ")"
+						}
+					}
+				}
+			}
+			switch {
+			case bad != "":
+				b.addP([]string{"C03", "C12"}, core.Violation, wkey, bad, "a codec is published in the memo and the compiler is re-entered before the codec's wire type is set: a recursive reference to the type (type R struct{ Kids []*R } reached through a *R field) finds the incomplete codec and precomputes its tags with wire type 0 — the elements are written as varint fields (08 …) and the message does not decode")
+			case sites == 0:
+				b.addP([]string{"C03"}, core.Undecided, wkey, "-", "no codec is published before a recursive compilation")
+			default:
+				b.addP([]string{"C03", "C12"}, core.Discharged, wkey, "-", fmt.Sprintf("%d codec(s) published before a recursive compilation, each with its wire type already set", sites))
+			}
 		}
 		// the memo is threaded: a compiler function hands its own memo to the compiler functions
 		// it calls. A fresh map for an inner compilation forgets the types in progress, and a type
